@@ -1,5 +1,6 @@
 ---- MODULE MC_t_nx ----
 EXTENDS MCOFWire
 TheCases == NXPairs(TopKindsNX) \cup NXShapes(0..9) \cup NXEntriesT(0)
+TheRCases == {}
 TheAround == AroundOne
 ====
